@@ -8,6 +8,8 @@ package main
 //   hold=1: every call of f waits until as many calls are in progress as the statement allows workers
 //           (min(FixedPool, n), n without pool size), then lingers a data-dependent moment: the maximal number of
 //           concurrent applications is then exactly the number of workers and is printed.
+//   hold=2 (only when the bound is n): the application to v waits until all applications to larger values have finished,
+//           i.e. completion order is descending by value whatever the input order.
 //   hold=0: f sleeps a data-dependent time (completion order is a pseudo-random permutation of input order).
 // Observation:  res=[…] once=ok maxc=<k|ok> after=ok      (res sorted in RandomOrder mode)
 //   once   every value was passed to f exactly as often as it occurs in the list, nothing else was passed
@@ -33,6 +35,7 @@ type c16Case struct {
 	random bool
 	str    bool
 	hold   bool
+	rev    bool
 	seed   int
 }
 
@@ -73,6 +76,7 @@ func c16Parse(line string) (*c16Case, bool) {
 			c.str = v == "s"
 		case "hold":
 			c.hold = v == "1"
+			c.rev = v == "2"
 		}
 	}
 	return c, true
@@ -98,6 +102,20 @@ type c16Mon struct {
 	bound    int
 	open     chan struct{}
 	opened   bool
+	rev      bool
+	pending  map[int]int
+	giveUp   bool
+	cond     *sync.Cond
+}
+
+func (m *c16Mon) pendingGreater(v int) int {
+	k := 0
+	for x, c := range m.pending {
+		if x > v {
+			k += c
+		}
+	}
+	return k
 }
 
 // around one application of f to the element with numeric value v
@@ -110,6 +128,12 @@ func (m *c16Mon) apply(v int) {
 	if m.hold && !m.opened && m.inflight >= m.bound {
 		m.opened = true
 		close(m.open)
+	}
+	if m.rev {
+		// completion order = descending by value: wait until every application to a larger value has finished
+		for m.pendingGreater(v) > 0 && !m.giveUp {
+			m.cond.Wait()
+		}
 	}
 	m.mu.Unlock()
 	if m.hold {
@@ -132,6 +156,10 @@ func (m *c16Mon) apply(v int) {
 	m.counts[v]++
 	m.total++
 	m.inflight--
+	if m.rev {
+		m.pending[v]--
+		m.cond.Broadcast()
+	}
 	m.mu.Unlock()
 }
 
@@ -153,6 +181,17 @@ func c16Run(line string) string {
 	for i := range vals {
 		vals[i] = c16Elem(c.seed, i)
 		want[vals[i]]++
+	}
+	if c.rev {
+		mon.rev = true
+		mon.cond = sync.NewCond(&mon.mu)
+		mon.pending = map[int]int{}
+		for v, k := range want {
+			mon.pending[v] = k
+		}
+		// fewer goroutines than elements is allowed by the property: stop gating after a while instead of blocking forever
+		t := time.AfterFunc(5*time.Second, func() { mon.mu.Lock(); mon.giveUp = true; mon.cond.Broadcast(); mon.mu.Unlock() })
+		defer t.Stop()
 	}
 	var res []string
 	if c.str {
@@ -243,7 +282,11 @@ func c16Gen(tier string, rng *rand.Rand, emit func(string)) map[string]interface
 				seen[p] = true
 
 				for _, mode := range []string{"o", "r"} {
-					for _, hold := range []string{"0", "1"} {
+					holds := []string{"0", "1"}
+					if pv, err := strconv.Atoi(p); p == "nil" || (err == nil && (pv <= 0 || pv >= n)) {
+						holds = append(holds, "2") // all n applications can be in flight: force descending completion order
+					}
+					for _, hold := range holds {
 						ty := "i"
 						if (n+len(p)+count)%3 == 0 {
 							ty = "s"
